@@ -148,6 +148,41 @@ class Handler:
 
 # ------------------------------------------------------------------------------------------------
 # the property on the real code
+#
+# The oracle reads the *datagram as the harness built it*, never the library's parse of it: type bits =
+# octet 3, S/N = octets 4..6 big endian, the options and the RRS opcode / radio ip are the values the
+# generator put in (`Dg.meta`).  For datagrams that are not well-formed by construction (truncated,
+# garbage, bit-flipped) there is no such record; the header octets are still read raw, and only the
+# question "could the handler read this at all" and the option / RRS fields fall back to what the
+# library's parser reports.
+
+
+class Dg:
+    """a datagram and, if it is well-formed by construction, the fields it was built from"""
+
+    __slots__ = ("data", "meta")
+
+    def __init__(self, data: bytes, meta=None):
+        self.data, self.meta = data, meta
+
+    def json(self):
+        m = None
+        if self.meta is not None:
+            m = dict(self.meta)
+            m["opts"] = m["opts"].hex()
+            m["rrs"] = [m["rrs"][0], list(m["rrs"][1])] if m["rrs"] else None
+        return {"hex": self.data.hex(), "meta": m}
+
+    @staticmethod
+    def unjson(o):
+        if isinstance(o, str):
+            return Dg(bytes.fromhex(o))
+        m = o.get("meta")
+        if m is not None:
+            m = dict(m)
+            m["opts"] = bytes.fromhex(m["opts"])
+            m["rrs"] = (m["rrs"][0], tuple(m["rrs"][1])) if m["rrs"] else None
+        return Dg(bytes.fromhex(o["hex"]), m)
 
 
 def is_ack_datagram(o: bytes) -> bool:
@@ -157,56 +192,62 @@ def is_ack_datagram(o: bytes) -> bool:
 HEARTBEAT = bytes.fromhex("324200020000")
 
 
-def oracle(ctx, hd, before, data, outs, ret, history, exp_registry):
+def oracle(ctx, hd, before, dg, outs, ret, history, exp_registry):
     """C17 as stated, for one delivery; `before` = (connected, sn) before the call"""
 
     def fail(kind, what, expected=None, actual=None):
         ctx.count(f"oracle-failure:{kind}")
         if len(ctx.failures) < 200:
-            ctx.fail(kind, {"handler": hd.kind, "start": history["start"], "datagrams": [d.hex() for d in history["datagrams"]]}, what, expected=expected, actual=actual)
+            ctx.fail(kind, {"handler": hd.kind, "start": history["start"], "datagrams": [d.json() for d in history["datagrams"]]}, what, expected=expected, actual=actual)
 
+    data, meta = dg.data, dg.meta
     if isinstance(ret, BaseException):
         fail("raises", f"datagram_received raised {type(ret).__name__}: {ret}")
         return
     out_bytes = [o for o, _ in outs]
-    pdu = parse(data)
     h = hd.h
-    if pdu is None:
-        if out_bytes or ret != (False, None) or (h.hstrp_connected, h.sn) != before:
-            fail("non-hstrp-handled", "a datagram that is no HSTRP caused output / state change", expected="no output, (False, None)", actual=str((len(out_bytes), ret[0])))
-        return
-    t = pdu.pkt_type
-    connect_c = t.is_connect
-    heartbeat_c = not t.is_connect and t.is_heartbeat
-    close_c = not t.is_connect and not t.is_heartbeat and t.is_close
+    pdu = parse(data)
+    if meta is not None:
+        # well-formed by construction: the handler has to read it
+        if pdu is None:
+            if not out_bytes:
+                fail("wellformed-ignored", "a well-formed HSTRP datagram was treated as 'not an HSTRP' (no acknowledgement, no handling)", expected="handled", actual="ignored")
+            return
+        tb, sn, version, opts, rrs = meta["tb"], meta["sn"], meta["version"], meta["opts"], meta["rrs"]
+    else:
+        if pdu is None:
+            if out_bytes or ret != (False, None) or (h.hstrp_connected, h.sn) != before:
+                fail("non-hstrp-handled", "a datagram that is no HSTRP caused output / state change", expected="no output, (False, None)", actual=str((len(out_bytes), ret[0])))
+            return
+        tb, sn, version = data[3], int.from_bytes(data[4:6], "big"), data[2]
+        opts = pdu.options.as_bytes()
+        rp = pdu.payload if isinstance(pdu.payload, L["RadioRegistrationService"]) else None
+        rrs = (rp.opcode.value, tuple(rp.radio_ip.as_bytes())) if rp is not None else None
+    is_ack, is_hb, is_connect, is_close = bool(tb & 0x01), bool(tb & 0x02), bool(tb & 0x04), bool(tb & 0x08)
+    connect_c = is_connect
+    heartbeat_c = not is_connect and is_hb
+    close_c = not is_connect and not is_hb and is_close
     acks = [o for o in out_bytes if is_ack_datagram(o)]
     beats = [o for o in out_bytes if o == HEARTBEAT]
     others = [o for o in out_bytes if not is_ack_datagram(o) and o != HEARTBEAT]
-    rrs = pdu.payload if isinstance(pdu.payload, L["RadioRegistrationService"]) else None
-    is_request = hd.kind == "rrs" and rrs is not None and rrs.opcode == L["RRSTypes"].RadioRegistrationRequest
-    is_offline = hd.kind == "rrs" and rrs is not None and rrs.opcode == L["RRSTypes"].RadioGoingOffline
+    is_request = hd.kind == "rrs" and rrs is not None and rrs[0] == 3
+    is_offline = hd.kind == "rrs" and rrs is not None and rrs[0] == 1
     # ---- acknowledgements
-    if not t.is_ack and not heartbeat_c:
-        # connect, close, data (and reject) messages: exactly one acknowledgement, same S/N, no payload
+    if not is_ack and not heartbeat_c:
+        # connect, close, data (and reject) messages: exactly one acknowledgement: ack bit, the same 16-bit S/N,
+        # nothing after the header but (at most) the request's options — no payload
         ok = len(acks) == 1
         if ok:
             a = acks[0]
-            ap = parse(a)
-            ok = (
-                a[4:6] == pdu.sn.to_bytes(2, "big")
-                and len(a) == 6 + len(pdu.options.as_bytes())
-                and ap is not None
-                and ap.payload is None
-                and ap.sn == pdu.sn
-                and ap.pkt_type.is_ack
-            )
+            ok = a[:2] == b"2B" and a[4:6] == sn.to_bytes(2, "big") and a[6:] in (opts, b"") and not (a[3] & 0x10)
         if not ok:
-            fail("ack-not-exactly-once", "a connect/close/data message was not answered by exactly one acknowledgement with its S/N and no payload", expected=1, actual=[a.hex() for a in acks])
+            want = b"2B" + bytes([version, ((tb & 0x3F) | 0x01) & ~0x10]) + sn.to_bytes(2, "big") + opts
+            fail("ack-not-exactly-once", "a connect/close/data message was not answered by exactly one acknowledgement with its S/N and no payload", expected=[want.hex()], actual=[a.hex() for a in acks])
     else:
         if acks:
-            kind = "ack-answered" if t.is_ack else "heartbeat-acknowledged"
+            kind = "ack-answered" if is_ack else "heartbeat-acknowledged"
             fail(kind, "an acknowledgement / heartbeat was acknowledged", expected=[], actual=[a.hex() for a in acks])
-    if t.is_ack and not heartbeat_c:
+    if is_ack and not heartbeat_c:
         # acknowledgements are never answered; the only datagram an ack-typed message can trigger is the RRS
         # answer to a registration request it carries
         if beats or (others and not is_request):
@@ -221,30 +262,20 @@ def oracle(ctx, hd, before, data, outs, ret, history, exp_registry):
         fail("connected-flag", "connected flag differs from 'last connect/close seen was a connect'", expected=exp_conn, actual=h.hstrp_connected)
     # ---- registry and registration answers
     if hd.kind == "rrs":
+        if is_request or is_offline:
+            exp_registry[".".join(str(x) for x in rrs[1])] = "Online" if is_request else "Offline"
+        got = {k: v.name for k, v in h.registry.items()}
+        if got != exp_registry:
+            fail("registry", "registry differs from the fold of the last registration/offline message per radio", expected=str(exp_registry), actual=str(got))
         if is_request:
-            exp_registry[rrs.radio_ip.as_ip()] = L["RRSRadioState"].Online
-        elif is_offline:
-            exp_registry[rrs.radio_ip.as_ip()] = L["RRSRadioState"].Offline
-        if h.registry != exp_registry:
-            fail("registry", "registry differs from the fold of the last registration/offline message per radio", expected=str({k: v.name for k, v in exp_registry.items()}), actual=str({k: v.name for k, v in h.registry.items()}))
-        if is_request:
+            # exactly one success answer (result 0, renewal 300 s) for this radio, with the handler's 16-bit S/N
             ok = len(others) == 1 and 0 <= h.sn < 65536
+            want = None
             if ok:
-                o = others[0]
-                try:
-                    ans = L["HDAP"].from_bytes(o[6:])
-                except BaseException:  # noqa
-                    ans = None
-                ok = (
-                    isinstance(ans, L["RadioRegistrationService"])
-                    and ans.opcode == L["RRSTypes"].RadioRegistrationAnswer
-                    and ans.result == L["RRSResult"].Success
-                    and ans.radio_ip.as_bytes() == rrs.radio_ip.as_bytes()
-                    and o[:2] == b"2B"
-                    and int.from_bytes(o[4:6], "big") == h.sn
-                )
+                want = b"2B\x00\x20" + h.sn.to_bytes(2, "big") + rrs_payload(0x80, rrs[1])
+                ok = others[0] == want
             if not ok:
-                fail("registration-answer", "a registration request was not answered by exactly one success answer with a 16-bit S/N", expected=1, actual=[o.hex() for o in others])
+                fail("registration-answer", "a registration request was not answered by exactly one success answer with a 16-bit S/N", expected=[want.hex()] if want else 1, actual=[o.hex() for o in others])
         elif others:
             fail("unexpected-output", "output that is neither acknowledgement, heartbeat nor a registration answer to a request", actual=[o.hex() for o in others])
         if not is_request and h.sn != before[1]:
@@ -257,9 +288,10 @@ def oracle(ctx, hd, before, data, outs, ret, history, exp_registry):
 # datagram classes
 
 OPTS = bytes.fromhex("83040001869f040102")  # DeviceID 99999 (more follow), ChannelID 2
+KNOWN_RRS_OPCODES = (3, 0x80, 1, 2, 0x82)
 
 
-def hstrp(type_byte, sn=0, opts=b"", payload=b"", version=0) -> bytes:
+def raw_hstrp(type_byte, sn=0, opts=b"", payload=b"", version=0) -> bytes:
     return b"2B" + bytes([version, type_byte]) + sn.to_bytes(2, "big") + opts + payload
 
 
@@ -279,31 +311,55 @@ def rrs_payload(opcode: int, ip=(10, 0, 0, 100), reliable=False) -> bytes:
 
 RCP_CALL = bytes.fromhex("024108050000d20400000e03")  # RCP call request (test vector)
 
-CLASSES = [
-    # the 12 core classes (exhaustive to length 6 in the thorough tier)
-    ("connect", hstrp(0x04)),
-    ("connect-ack", hstrp(0x05)),
-    ("heartbeat", hstrp(0x02)),
-    ("close", hstrp(0x08)),
-    ("close-ack", hstrp(0x09)),
-    ("ack", hstrp(0x01, sn=7)),
-    ("reject", hstrp(0x10, sn=7)),
-    ("rrs-register", hstrp(0x20, sn=1, opts=OPTS, payload=rrs_payload(3))),
-    ("rrs-offline", hstrp(0x20, sn=2, opts=OPTS, payload=rrs_payload(1))),
-    ("data-other-hdap", hstrp(0x00, sn=1, payload=RCP_CALL)),
-    ("truncated", hstrp(0x20, sn=1, opts=OPTS, payload=rrs_payload(3))[:11]),
-    ("garbage", b"XB\x00\x04\x00\x00"),
-    # further classes (exhaustive to length 4 / 5)
-    ("data-empty", hstrp(0x00, sn=3)),
-    ("rrs-register-2", hstrp(0x20, sn=0xFFFF, opts=OPTS, payload=rrs_payload(3, ip=(10, 0, 0, 101)))),
-    ("rrs-status-check", hstrp(0x20, sn=4, opts=OPTS, payload=rrs_payload(2))),
-    ("heartbeat+ack", hstrp(0x03)),
-    ("connect+close", hstrp(0x0C, sn=9)),
-    ("ack+rrs-register", hstrp(0x21, sn=5, opts=OPTS, payload=rrs_payload(3))),
-    ("short", b"2B\x00\x04\x00"),
-    ("heartbeat+rrs-offline", hstrp(0x02, sn=0, payload=rrs_payload(1))),
-]
+
+def hstrp(type_byte, sn=0, opts=b"", rrs=None, other=b"", version=0, reliable=False) -> Dg:
+    """a well-formed HSTRP datagram built from fields (kept as `meta` for the oracle)"""
+    payload = rrs_payload(rrs[0], rrs[1], reliable) if rrs else other
+    assert type_byte < 64 and (not opts or (type_byte & 0x20 and not type_byte & 0x02))
+    assert rrs is None or rrs[0] in KNOWN_RRS_OPCODES
+    return Dg(raw_hstrp(type_byte, sn, opts, payload, version), {"tb": type_byte, "sn": sn, "version": version, "opts": opts, "rrs": rrs})
+
+
+R100, R101, R102 = (10, 0, 0, 100), (10, 0, 0, 101), (10, 0, 0, 102)
 N_CORE = 12
+
+
+def classes(variant=0):
+    """the 20 datagram classes; `variant` moves the sequence numbers across the 16-bit range
+    (0: small / documented values, 1: all >= 0x0100, 2: extremes)"""
+    sn = {
+        0: dict(zero=0, a=7, b=1, c=2, d=3, e=0xFFFF, f=4, g=9, h=5),
+        1: dict(zero=0x0100, a=0x1234, b=0x0101, c=0xABCD, d=0x0200, e=0x8000, f=0x7FFF, g=0x0900, h=0x00FF + 0x0100),
+        2: dict(zero=0xFFFF, a=0xFF00, b=0x00FF, c=0xFFFE, d=0x0100, e=0x0001, f=0xFF01, g=0x01FF, h=0xFEFF),
+    }[variant]
+    trunc = hstrp(0x20, sn=sn["b"], opts=OPTS, rrs=(3, R100)).data[:11]
+    return [
+        # the 12 core classes (exhaustive to length 6 in the thorough tier)
+        ("connect", hstrp(0x04, sn=sn["zero"])),
+        ("connect-ack", hstrp(0x05, sn=sn["zero"])),
+        ("heartbeat", hstrp(0x02)),
+        ("close", hstrp(0x08, sn=sn["zero"])),
+        ("close-ack", hstrp(0x09, sn=sn["zero"])),
+        ("ack", hstrp(0x01, sn=sn["a"])),
+        ("reject", hstrp(0x10, sn=sn["a"])),
+        ("rrs-register", hstrp(0x20, sn=sn["b"], opts=OPTS, rrs=(3, R100))),
+        ("rrs-offline", hstrp(0x20, sn=sn["c"], opts=OPTS, rrs=(1, R100))),
+        ("data-other-hdap", hstrp(0x00, sn=sn["b"], other=RCP_CALL)),
+        ("truncated", Dg(trunc)),
+        ("garbage", Dg(b"XB\x00\x04\x00\x00")),
+        # further classes (exhaustive to length 4)
+        ("data-empty", hstrp(0x00, sn=sn["d"])),
+        ("rrs-register-2", hstrp(0x20, sn=sn["e"], opts=OPTS, rrs=(3, R101))),
+        ("rrs-status-check", hstrp(0x20, sn=sn["f"], opts=OPTS, rrs=(2, R100))),
+        ("heartbeat+ack", hstrp(0x03)),
+        ("connect+close", hstrp(0x0C, sn=sn["g"])),
+        ("ack+rrs-register", hstrp(0x21, sn=sn["h"], opts=OPTS, rrs=(3, R100))),
+        ("short", Dg(b"2B\x00\x04\x00")),
+        ("heartbeat+rrs-offline", hstrp(0x02, sn=0, rrs=(1, R100))),
+    ]
+
+
+CLASSES = classes(0)
 
 CORPUS = [
     # the repaired defect (ac2ad50): the acknowledgement of a connect / close must not be answered
@@ -311,45 +367,65 @@ CORPUS = [
     ("pingpong-close", [hstrp(0x08)]),
     ("connect-ack-direct", [hstrp(0x05), hstrp(0x09), hstrp(0x05)]),
     ("register-then-offline", [hstrp(0x04), CLASSES[7][1], CLASSES[8][1], CLASSES[13][1]]),
+    # sequence numbers above one octet: the acknowledgement carries both octets
+    ("two-octet-sn", [hstrp(0x04, sn=0x0100), hstrp(0x08, sn=0x1234), hstrp(0x00, sn=0xFFFF), hstrp(0x20, sn=0xABCD, opts=OPTS, rrs=(3, R100)), hstrp(0x10, sn=0x0101)]),
 ]
 
 
-def random_datagram(rng) -> bytes:
+def random_datagram(rng) -> Dg:
     c = rng.randrange(100)
     if c < 8:
-        return bytes(rng.randrange(256) for _ in range(rng.choice([0, 1, 5, 6, 7, 12, 30])))
-    tb = rng.choice([0x04, 0x05, 0x02, 0x08, 0x09, 0x01, 0x10, 0x20, 0x00, 0x21, 0x24, 0x28, 0x03, 0x0C, 0x30, 0x11]) if rng.random() < 0.8 else rng.randrange(256)
-    sn = rng.choice([0, 1, 7, 255, 256, 0xFFFE, 0xFFFF, rng.randrange(65536)])
+        return Dg(bytes(rng.randrange(256) for _ in range(rng.choice([0, 1, 5, 6, 7, 12, 30]))))
+    wellformed = True
+    if rng.random() < 0.85:
+        tb = rng.choice([0x04, 0x05, 0x02, 0x08, 0x09, 0x01, 0x10, 0x20, 0x00, 0x21, 0x24, 0x28, 0x03, 0x0C, 0x30, 0x11])
+    else:
+        tb = rng.randrange(256)
+        wellformed = tb < 64
+    sn = rng.choice([0, 1, 7, 255, 256, 0x1234, 0xFFFE, 0xFFFF, rng.randrange(65536), rng.randrange(256, 65536)])
     version = 0 if rng.random() < 0.8 else rng.randrange(256)
     opts = b""
     if tb & 0x20 and not tb & 0x02 and rng.random() < 0.9:
         n = rng.choice([1, 2, 2, 3])
         for i in range(n):
-            cmd = rng.choice([1, 3, 4, 5, 6, 7]) if rng.random() < 0.95 else rng.randrange(128)
+            if rng.random() < 0.95:
+                cmd = rng.choice([1, 3, 4, 5, 6, 7])
+            else:
+                cmd = rng.randrange(128)
+                wellformed = wellformed and cmd in (1, 3, 4, 5, 6, 7)
             body = bytes(rng.randrange(256) for _ in range({1: 0, 3: 4}.get(cmd, 1)))
             opts += bytes([cmd | (0x80 if i < n - 1 else 0), len(body)]) + body
+    rrs = None
     p = rng.randrange(100)
     if p < 45:
-        op = rng.choice([3, 3, 3, 1, 1, 2, 0x80, 0x82]) if rng.random() < 0.95 else rng.randrange(256)
-        ip = (10, 0, 0, rng.choice([100, 101, 102])) if rng.random() < 0.9 else tuple(rng.randrange(256) for _ in range(4))
+        if rng.random() < 0.95:
+            op = rng.choice([3, 3, 3, 1, 1, 2, 0x80, 0x82])
+        else:
+            op = rng.randrange(256)
+            wellformed = wellformed and op in KNOWN_RRS_OPCODES
+        ip = rng.choice([R100, R101, R102]) if rng.random() < 0.9 else tuple(rng.randrange(256) for _ in range(4))
+        rrs = (op, ip)
         payload = rrs_payload(op, ip, reliable=rng.random() < 0.2)
     elif p < 55:
         payload = RCP_CALL
     elif p < 60:
         payload = bytes(rng.randrange(256) for _ in range(rng.randrange(1, 12)))
+        wellformed = False
     else:
         payload = b""
-    d = hstrp(tb, sn, opts, payload, version)
+    d = raw_hstrp(tb, sn, opts, payload, version)
     m = rng.randrange(100)
     if m < 10 and len(d) > 1:
-        d = d[: rng.randrange(len(d))]
-    elif m < 25:
+        return Dg(d[: rng.randrange(len(d))])
+    if m < 25:
         d = bytearray(d)
         for _ in range(rng.choice([1, 1, 2, 3])):
             i = rng.randrange(len(d) * 8)
             d[i // 8] ^= 0x80 >> (i % 8)
-        d = bytes(d)
-    return d
+        return Dg(bytes(d))
+    if not wellformed:
+        return Dg(d)
+    return Dg(d, {"tb": tb, "sn": sn, "version": version, "opts": opts, "rrs": rrs})
 
 
 # ------------------------------------------------------------------------------------------------
